@@ -14,6 +14,7 @@ import (
 	"hash/fnv"
 	"io"
 	"math"
+	"reflect"
 	"strconv"
 	"strings"
 	"sync/atomic"
@@ -124,11 +125,43 @@ func commandLine(c cmd.Command) (fresh cmd.Command, args []string, ok bool) {
 	return nil, nil, false
 }
 
+// respellBases rewrites, for half of the cases (chosen by the case's salt), a local
+// base directory into another spelling of the same directory - a trailing slash, a doubled separator, a "."
+// component - as a user types them. URLs are left alone.
+func respellBases(c cmd.Command) {
+	v := reflect.ValueOf(c)
+	if v.Kind() != reflect.Ptr || v.Elem().Kind() != reflect.Struct {
+		return
+	}
+	for _, name := range []string{"SrcBase", "DestBase"} {
+		f := v.Elem().FieldByName(name)
+		if !f.IsValid() || f.Kind() != reflect.String || !f.CanSet() {
+			continue
+		}
+		p := f.String()
+		if p == "" || strings.Contains(p, "://") || !strings.HasPrefix(p, "/") || strings.HasSuffix(p, "/") {
+			continue
+		}
+		i := strings.LastIndexByte(p, '/')
+		switch (caseSalt()/7 + uint64(len(name))) % 8 {
+		case 0:
+			f.SetString(p + "/")
+		case 1:
+			f.SetString(p[:i] + "//" + p[i+1:])
+		case 2:
+			f.SetString(p[:i] + "/./" + p[i+1:])
+		case 3:
+			f.SetString(p + "/.")
+		}
+	}
+}
+
 // throughFlags returns the command to execute: c itself, or its Parse-d equivalent.
 func throughFlags(c cmd.Command) cmd.Command {
 	if viaFlagsOff {
 		return c
 	}
+	respellBases(c)
 	fresh, args, ok := commandLine(c)
 	if !ok {
 		return c
